@@ -375,6 +375,7 @@ func c12RunInner(c c12Case) (classes []string, nontrivial bool, err error) {
 		return nil, false, nil
 	}
 	defer os.RemoveAll(base)
+	base = frModelsDir(base) // every store of the case lives below it (injector A only: B matches paths in strace output)
 	os.Unsetenv("OLLAMA_NOPRUNE")
 	cls := map[string]bool{}
 	if c.NoPrune {
